@@ -12,7 +12,7 @@ From Suiron Require Import Model.Term Model.Subst Model.Rename Model.Solve Proof
 Theorem C23_solve : forall kb fuel nd w nd' txt w',
   solve fuel kb nd w = Ok (nd', txt, w') ->
   exists sol c w1,
-    next kb fuel nd (w_set_flag w false) = Ok (nd', sol, c, w1) /\
+    next kb fuel fuel nd (w_set_flag w false) = Ok (nd', sol, c, w1) /\
     w' = snd (query_stopped w1) /\
     if fst (query_stopped w1) then txt = timeout_msg
     else match sol with
